@@ -167,7 +167,14 @@ class WebProcessorSession(BaseProcessorSession):
                 url_record.url_info.scheme == 'http':
             return
 
-        request.fields['Referer'] = url_record.parent_url
+        # The user name and password of the referring URL are not part of
+        # the referrer (rfc7231 section 5.5.2): they must not be handed to
+        # whatever host the link leads to.
+        scheme, sep, rest = url_record.parent_url.partition('://')
+        authority, slash, path = rest.partition('/')
+
+        request.fields['Referer'] = ''.join(
+            (scheme, sep, authority.rpartition('@')[2], slash, path))
 
     @asyncio.coroutine
     def process(self):
